@@ -123,6 +123,26 @@ impl Monitor for C13 {
     fn on_landed(&mut self, ev: &Landed, cov: &mut Coverage) -> Vec<Violation> {
         let mut out = Vec::new();
         if !ev.out.ok {
+            // "errors on the same inputs": a liquidity instruction refused with TickNotFound although both bounds are usable
+            // ticks inside well-formed arrays of the right start (fixed or dynamic, Pinocchio accessors)
+            if ev.tx.ixs.len() == 1 && ev.fail_cpi.is_none() && ev.out.custom() == Some(6009) {
+                if let Some(c) = wpix::decode(&ev.tx.ixs[0]) {
+                    if matches!(c.name(), "increase_liquidity" | "increase_liquidity_v2" | "decrease_liquidity" | "decrease_liquidity_v2" | "increase_liquidity_by_token_amounts_v2") {
+                        if let (Some(pos), Some(pool)) = (ev.pre.data(&c.a("position")).and_then(decode::position), ev.pre.data(&c.a("whirlpool")).and_then(decode::pool)) {
+                            let sp = pool.tick_spacing as i32;
+                            let fine = |t: i32, ak: Pubkey| -> bool {
+                                let Some(Ok(ta)) = ev.pre.data(&ak).map(decode::tick_array) else { return false };
+                                sp > 0 && t % sp == 0 && (decode::MIN_TICK..=decode::MAX_TICK).contains(&t) && ta.whirlpool == c.a("whirlpool") && t >= ta.start && t < ta.start + 88 * sp
+                            };
+                            let (ok_lo, ok_hi) = (fine(pos.lower, c.a("tick_array_lower")), fine(pos.upper, c.a("tick_array_upper")));
+                            cov.eval(format!("{}|tick_not_found|bounds_fine={}", c.name(), ok_lo && ok_hi));
+                            if ok_lo && ok_hi && pos.whirlpool == c.a("whirlpool") {
+                                out.push(viol("accessor_rejects_usable_tick", ev.idx, format!("{} fails with TickNotFound although {} and {} are usable ticks (spacing {}) inside the supplied arrays", c.name(), pos.lower, pos.upper, sp)));
+                            }
+                        }
+                    }
+                }
+            }
             return out;
         }
         let rent = crate::rt::with_ctx(|c| c.rent);
